@@ -422,27 +422,41 @@ def _indomain(report):
     return n
 
 
+def _budget_task(task):
+    from . import C20
+    mode, prob, budgets = task
+    out = []
+    for maxfun in budgets:
+        cfg = C20._mk(prob, mode, maxfun, 0)
+        ex = solvex.Execution(cfg).run()
+        v = []
+        flag = None
+        if ex.outcome != "returned":
+            v.append(("returns_in_domain", "%s maxfun=%d: solve %s %s: %s" % (mode, maxfun, ex.outcome, type(ex.exc).__name__, ex.exc)))
+        else:
+            _wellformed(ex.soln, len(ex.calls), v, "%s/%s maxfun=%d" % (mode, prob, maxfun))
+            flag = int(ex.soln.flag)
+        out.append((cfg, v, flag))
+    return out
+
+
 def _every_budget(report, tier):
     """(e) continued: complete solver runs for every budget in configurations that reach the rarer exit sites (auto-detected
     restarts with hard restarts, slow-progress and false-success exits); the result must be well formed every time."""
-    from . import C20
     n = 0
     flags = {}
-    for mode in ("noise_autodetect", "slow", "fake", "hard_mu0", "boxball_diag"):
-        for prob in ("rosen", "nzr"):
-            for maxfun in range(1, 81 if tier == "quick" else 161):
-                cfg = C20._mk(prob, mode, maxfun, 0)
-                ex = solvex.Execution(cfg).run()
-                n += 1
-                v = []
-                if ex.outcome != "returned":
-                    v.append(("returns_in_domain", "%s maxfun=%d: solve %s %s: %s" % (mode, maxfun, ex.outcome, type(ex.exc).__name__, ex.exc)))
-                else:
-                    _wellformed(ex.soln, len(ex.calls), v, "%s/%s maxfun=%d" % (mode, prob, maxfun))
-                    flags[ex.soln.flag] = flags.get(ex.soln.flag, 0) + 1
-                for clause, detail in v:
-                    report.add_violation(clause, detail, {"engine": "solvex", "module": "C20", "cfg": cfg, "devs": []},
-                                         {"kind": "every_budget", "mode": mode})
+    top = 81 if tier == "quick" else 161
+    tasks = [(mode, prob, list(range(lo, min(lo + 10, top))))
+             for mode in ("noise_autodetect", "slow", "fake", "hard_mu0", "boxball_diag") for prob in ("rosen", "nzr")
+             for lo in range(1, top, 10)]
+    for res in common.pool_map(_budget_task, tasks):
+        for cfg, v, flag in res:
+            n += 1
+            if flag is not None:
+                flags[flag] = flags.get(flag, 0) + 1
+            for clause, detail in v:
+                report.add_violation(clause, detail, {"engine": "solvex", "module": "C20", "cfg": cfg, "devs": []},
+                                     {"kind": "every_budget", "mode": cfg.get("tag_mode")})
     return n, flags
 
 
